@@ -42,7 +42,12 @@ def run_one(m, skip_tests, tier):
     try:
         src = os.path.join(scratch, "src")
         shutil.copytree(os.environ.get("SELFCHECK_SRC", "/repo/src"), src, ignore=shutil.ignore_patterns("__pycache__", "*.egg-info"))
-        err = apply(src, m)
+        if m.get("patch"):
+            # an independently seeded change (seeded/<id>/patch.diff), applied to the scratch copy of the current tree
+            r = subprocess.run(["patch", "-p1", "-s", "-f", "-d", scratch, "-i", m["patch"]], capture_output=True, text=True)
+            err = None if r.returncode == 0 else ("patch does not apply to the current tree: " + (r.stdout + r.stderr)[-200:])
+        else:
+            err = apply(src, m)
         if err:
             out["status"] = "stale"
             out["detail"] = err
@@ -82,8 +87,21 @@ def main(argv=None):
     ap.add_argument("--skip-tests", action="store_true")
     ap.add_argument("--jobs", type=int, default=2)
     ap.add_argument("--tier", default="quick")
+    ap.add_argument("--seeds", action="store_true",
+                    help="instead of the catalogue: every seeded/<id>/patch.diff against the check of its property "
+                         "(writes evidence/seedcheck_regression.json)")
     a = ap.parse_args(argv)
     sel = MUTANTS
+    if a.seeds:
+        import glob
+        sel = []
+        for d in sorted(glob.glob(os.path.join(boot.VERIF, "seeded", "*"))):
+            mp, pp = os.path.join(d, "meta.json"), os.path.join(d, "patch.diff")
+            if os.path.basename(d).endswith("-neutralised"):
+                continue      # kept for the record: no longer breaks the property on the repaired tree (DESIGN 9.10)
+            if os.path.exists(mp) and os.path.exists(pp):
+                meta = json.load(open(mp))
+                sel.append({"name": "seed:" + os.path.basename(d), "props": [meta["property"]], "file": "patch.diff", "patch": pp})
     if a.only:
         want = set(a.only.split(","))
         sel = [m for m in sel if want & set(m["props"])]
@@ -95,7 +113,7 @@ def main(argv=None):
             results.append(r)
             chk = {p: (v["exit"], v["mechanisms"][-120:]) for p, v in r.get("checks", {}).items()}
             print(f"{r['status']:>24}  {r['name']:<48} {chk if chk else r.get('detail', '')}", flush=True)
-    path = os.path.join(boot.VERIF, "evidence", "selfcheck.json")
+    path = os.path.join(boot.VERIF, "evidence", "seedcheck_regression.json" if a.seeds else "selfcheck.json")
     prev = {}
     if os.path.exists(path):
         try:
